@@ -11,6 +11,13 @@
 (*        payload with an OK status; hashers equal the reference value;     *)
 (*   C09 (Mode = "same"): the run equals the run of the same <<input,       *)
 (*        schedule>> under the base configuration.                          *)
+(* Token decoders (std/json, std/cbor): the events of their calls carry the  *)
+(* tokens written ("tk") and the source bytes consumed ("sb") for inputs up  *)
+(* to the driver's recording bound, and running summaries for every input;   *)
+(* spec/TokenStream.tla says what a well-formed token stream is (clauses     *)
+(* Token*, every mode) and when two streams are the same stream cut at       *)
+(* different buffer boundaries (NormalFormEqualsOracle, modes split / same). *)
+(* Events without token fields (every other decoder) satisfy them vacuously. *)
 (* The trace is a concatenation of jobs; a "start" event resets the         *)
 (* per-job state (TraceReset idiom).  Instead of disabling an action when   *)
 (* a clause fails, the violated clause names are collected in `bad` and     *)
@@ -23,6 +30,7 @@ EXTENDS Integers, Sequences, FiniteSets, TLC, Json
 CONSTANTS TraceFile, Mode, AmpleDst
 
 INSTANCE IOClauses
+TS == INSTANCE TokenStream
 
 Trace == ndJsonDeserialize(TraceFile)
 
@@ -33,8 +41,10 @@ VARIABLES l,      \* next trace line
 tvars == <<l, s, bad>>
 
 NoExpect == [present |-> FALSE]
+\* token decoders: l0 = trace line of the job's start event, lastCon / lastLen = continued bit and length of the last
+\* token written so far, tstack = the open containers (TokenStream!StructWalk)
 Fresh == [job |-> -1, phase |-> "idle", inTotal |-> 0, outTotal |-> 0, dead |-> FALSE, calls |-> 0,
-          expect |-> NoExpect, kind |-> "", lastSusp |-> ""]
+          expect |-> NoExpect, kind |-> "", lastSusp |-> "", l0 |-> 0, lastCon |-> 0, lastLen |-> 0, tstack |-> <<>>]
 
 TInit == l = 1 /\ s = Fresh /\ bad = {}
 
@@ -43,6 +53,68 @@ Has(f) == f \in DOMAIN E
 
 \* "maxcalls": the driver gave up after the job's call budget (a bound of the exploration, not of the decoder)
 LegitStops == {"status", "done", "too_large", "out_limit", "frame_limit", "init_failed", "maxcalls"}
+
+\* ---- token streams (spec/TokenStream.tla) -----------------------------------
+IsTokCall(e) == "twi1" \in DOMAIN e                     \* a decode_tokens call
+Recorded(e) == "tk" \in DOMAIN e                        \* ... whose tokens and consumed bytes were logged
+\* the structure walk of this call's tokens from the stack the earlier calls left
+TokWalk == TS!StructWalk(s.tstack, E.tk)
+
+\* clauses of ONE decode_tokens call
+TokCallBad ==
+    IF ~IsTokCall(E) THEN {}
+    ELSE
+    LET err == E.cls = "err"
+        \* the driver's running sum of token lengths against the running consumption (every input size).  After an
+        \* error the object is dead and nobody needs the tokens of the bytes it had looked at: only "no token beyond
+        \* the consumed bytes" is demanded then.
+        sums == IF Has("tok_len_sum") /\ Has("in_total") /\ (IF err THEN E.tok_len_sum > E.in_total ELSE E.tok_len_sum # E.in_total)
+                THEN {"TokenLengthsPartitionSource"} ELSE {}
+        summ == \* unrecorded streams: the driver's summaries
+                IF ~Recorded(E) /\ Has("tok_pop_below_zero") /\ E.tok_pop_below_zero THEN {"TokenStructureBalanced"} ELSE {}
+    IN sums \cup summ \cup
+       (IF ~Recorded(E) THEN {}
+        ELSE LET tk == E.tk
+                 from == s.inTotal
+                 to == E.in_total
+                 \* the record itself: the logged bytes are the bytes from `from` to `to`
+                 recOk == E.sb0 = from /\ Len(E.sb) = to - from
+                 chain == IF err THEN (Len(tk) = 0 \/ (TS!PositionsChain(tk, from, TS!TPos(tk[Len(tk)]) + TS!TLen(tk[Len(tk)]))
+                                                       /\ TS!TPos(tk[Len(tk)]) + TS!TLen(tk[Len(tk)]) <= to))
+                          ELSE TS!PositionsChain(tk, from, to)
+             IN (IF \A i \in 1..Len(tk) : TS!FieldsInRange(tk[i]) /\ TS!CategoryDefined(tk[i]) /\ TS!CodePointValid(tk[i])
+                 THEN {} ELSE {"TokenFieldsWellFormed"})
+                \cup (IF chain THEN {} ELSE {"TokenLengthsPartitionSource"})
+                \cup (IF TS!ExtendedInsideChain(tk, s.lastCon, s.lastLen) THEN {} ELSE {"TokenChainsClosed"})
+                \cup (IF TS!NumberUnsplit(tk, s.lastCon) THEN {} ELSE {"TokenNumberUnsplit"})
+                \cup (IF TokWalk.ok THEN {} ELSE {"TokenStructureBalanced"})
+                \cup (IF ~recOk THEN {"TokenRecordConsistent"}
+                      ELSE IF chain /\ ~TS!Utf8NotStraddled(tk, E.sb, from) THEN {"TokenUtf8NotStraddled"} ELSE {}))
+
+\* clauses of the END of a token decoder's job: a finished stream (status ok) has no open chain and no open container
+TokEndBad ==
+    IF ~Has("tok_last_con") THEN {}
+    ELSE IF E.cls # "ok" \/ E.stop # "status" THEN {}
+    ELSE (IF TS!ChainClosedAtEnd(E.tok_last_con) /\ TS!ChainClosedAtEnd(s.lastCon) THEN {} ELSE {"TokenChainsClosed"})
+         \cup (IF E.tok_depth = 0 /\ TS!StructBalancedAtEnd(s.tstack) THEN {} ELSE {"TokenStructureBalanced"})
+
+\* the tokens a job wrote, call by call, as a sequence of token sequences (lines a..b of the trace)
+TokSeqs(a, b) == [i \in 1..(b - a + 1) |-> IF Trace[a + i - 1].k = "call" /\ Recorded(Trace[a + i - 1]) THEN Trace[a + i - 1].tk ELSE <<>>]
+JobRecorded(a, b) == \A k \in a..b : (Trace[k].k = "call" /\ IsTokCall(Trace[k])) => Recorded(Trace[k])
+
+\* C05 / C09: the normal form of the run's token stream equals the normal form of the oracle's (the one-shot run of
+\* the same binary / the base configuration's run): by hash for every input (the driver maintains the normal form
+\* incrementally), and token by token - TokenStream!Normalise evaluated here - when both streams were recorded.
+TokOracleBad ==
+    LET x == s.expect
+        xe == Trace[x.xl]
+        nf == TS!NormaliseMany(TokSeqs(s.l0, l - 1))
+    IN (IF Has("nf_hash") /\ "nf_hash" \in DOMAIN xe /\ E.nf_hash # xe.nf_hash THEN {"NormalFormEqualsOracle"} ELSE {})
+       \cup (IF Has("tok_recorded") /\ E.tok_recorded /\ "otk" \in DOMAIN xe /\ JobRecorded(s.l0, l - 1)
+             THEN (IF nf = TS!Normalise(xe.otk) THEN {} ELSE {"NormalFormEqualsOracle"})
+                  \* the driver's incremental normaliser and the specification's agree on this stream
+                  \cup (IF Has("nf_n") /\ E.nf_n # Len(nf) THEN {"TokenRecordConsistent"} ELSE {})
+             ELSE {})
 
 \* ---- clause sets per event kind -------------------------------------------
 
@@ -66,7 +138,7 @@ CallBad ==
                  ELSE {}
         img == IF Has("dirty_in_frame") /\ ~E.dirty_in_frame THEN {"DirtyRectInsideFrame"} ELSE {}
         tok == IF Has("tok_ok") /\ ~E.tok_ok THEN {"IdxOrdered"} ELSE {}
-    IN base \cup cont \cup split \cup img \cup tok
+    IN base \cup cont \cup split \cup img \cup tok \cup TokCallBad
 
 EndBad ==
     LET stop == IF E.stop \in LegitStops THEN {} ELSE {"Stop_" \o E.stop}
@@ -90,18 +162,19 @@ EndBad ==
                    \cup (IF x.hasSum /\ (~Has("sum") \/ E.sum # x.sum) THEN {"ChecksumEqualsOracle"} ELSE {})
         hs == IF Has("sum_eq_last") /\ ~E.sum_eq_last THEN {"ChecksumIsPure"} ELSE {}
         ph == IF s.phase # "begun" THEN {"EndOutsideJob"} ELSE {}
-    IN stop \cup eq \cup hs \cup ph
+        tokx == IF x.present /\ Mode \in {"split", "same"} /\ ~inconclusive /\ Has("nf_hash") THEN TokOracleBad ELSE {}
+    IN stop \cup eq \cup hs \cup ph \cup TokEndBad \cup tokx
 
 \* ---- actions, one per event kind -------------------------------------------
 
 Step(k) == l <= Len(Trace) /\ E.k = k /\ l' = l + 1
 
 Start == /\ Step("start")
-         /\ s' = [Fresh EXCEPT !.job = E.j]
+         /\ s' = [Fresh EXCEPT !.job = E.j, !.l0 = l]
          /\ bad' = IF s.phase \in {"idle", "ended"} THEN {} ELSE {"JobDidNotEnd"}   \* the process died inside the previous job
 
 Expect == /\ Step("expect")
-          /\ s' = [s EXCEPT !.expect = [present |-> TRUE, st |-> E.st, cls |-> E.cls,
+          /\ s' = [s EXCEPT !.expect = [present |-> TRUE, xl |-> l, st |-> E.st, cls |-> E.cls,
                                         hasOut |-> Has("out_total"), out_total |-> IF Has("out_total") THEN E.out_total ELSE 0,
                                         hasHash |-> Has("out_hash"), out_hash |-> IF Has("out_hash") THEN E.out_hash ELSE "",
                                         hasSum |-> Has("sum"), sum |-> IF Has("sum") THEN E.sum ELSE "",
@@ -116,7 +189,10 @@ Call == /\ Step("call")
         /\ bad' = CallBad
         /\ s' = [s EXCEPT !.inTotal = IF Has("in_total") THEN E.in_total ELSE @,
                           !.outTotal = IF Has("out_total") THEN E.out_total ELSE @,
-                          !.calls = @ + 1]
+                          !.calls = @ + 1,
+                          !.lastCon = IF Recorded(E) /\ Len(E.tk) > 0 THEN TS!TCon(E.tk[Len(E.tk)]) ELSE @,
+                          !.lastLen = IF Recorded(E) /\ Len(E.tk) > 0 THEN TS!TLen(E.tk[Len(E.tk)]) ELSE @,
+                          !.tstack = IF Recorded(E) THEN TokWalk.stack ELSE @]
 
 HCall == /\ Step("hcall")
          /\ bad' = (IF E.al # 0 THEN {"NoAllocInCall"} ELSE {}) \cup (IF ~E.ssame THEN {"SrcUnchanged"} ELSE {}) \cup RangeBad
